@@ -1,5 +1,79 @@
 import Asn1Verif.Base.Text
-/- line protocol, stream `front` — not implemented yet -/
+import Asn1Verif.Front.TotalFront
+/-
+  line protocol, stream `front` (C14): the composed front end of `Front/TotalFront.lean`
+
+    front total <hex text> → ok | err parse:<class> | err resolve:<class> | panic tokenizer
+                           | abort | skip
+
+  The answer is `frontEnd text` — tokenizer model (`Front/Tokenizer.lean`: comments, control
+  characters, Unicode, locations), `bridge`, parser model, single-module resolver model — rendered
+  in the format of the harness (which appends the offending token to a parse error; the check
+  compares the class only).  `abort` = the resolver's chase budget is exhausted (the real code
+  overflows its stack).  `to_rust` / `to_protobuf` have no mirror here.
+
+  `skip` (outside the domain of the mirror):
+    * a `'` token followed, up to the next `'` token, by a token on another line: the real
+      parser rebuilds a literal from token *columns*, the parser model assumes one line (header of
+      `Front/Parser.lean`); on one line both give the same outcome class,
+    * a non-ASCII numeric character (`char::is_numeric` in `read_oid` is modelled for ASCII,
+      DESIGN A.4): Arabic-Indic / full-width digits, superscripts and vulgar fractions of Latin-1.
+-/
 namespace Driver.FrontStream
-def handle (_args : List String) : String := "bad-op"
+open Asn1Verif Asn1Verif.Front Asn1Verif.Text
+
+def decodeText (hex : String) : Option (List Char) := do
+  let bs ← hexToBytes hex
+  let s ← String.fromUTF8? (ByteArray.mk (bs.map fun b => UInt8.ofNat b.toNat).toArray)
+  pure s.toList
+
+def Token.line : Token → Nat
+  | .text loc _ => loc.line
+  | .separator loc _ => loc.line
+
+def Token.isQuote : Token → Bool
+  | .separator _ c => c == '\''
+  | .text _ _ => false
+
+/-- is one of the tokens up to and including the next `'` on a line other than `line`? -/
+def spansLinesAny (line : Nat) : List Token → Bool
+  | [] => false
+  | t :: rest =>
+    if Token.isQuote t then Token.line t != line
+    else Token.line t != line || spansLinesAny line rest
+
+/-- some `'` token whose span up to the next `'` token leaves its line — provided that span
+    closes at all -/
+def multiLineQuote : List Token → Bool
+  | [] => false
+  | t :: rest =>
+    (Token.isQuote t && rest.any Token.isQuote && spansLinesAny (Token.line t) rest) ||
+      multiLineQuote rest
+
+def foreignNumeric (c : Char) : Bool :=
+  let n := c.toNat
+  (0x0660 ≤ n && n ≤ 0x0669) || (0x06F0 ≤ n && n ≤ 0x06F9) || (0xFF10 ≤ n && n ≤ 0xFF19) ||
+  n == 0xB2 || n == 0xB3 || n == 0xB9 || (0xBC ≤ n && n ≤ 0xBE)
+
+def total (cs : List Char) : String :=
+  if cs.any foreignNumeric then "skip" else
+  match tokenize cs with
+  | .panic => "panic tokenizer"
+  | .err _ => "panic tokenizer"      -- unreachable (`C13.tokenize_never_err`)
+  | .ok ts =>
+    if multiLineQuote ts then "skip" else
+    match parseResolve (ts.map bridge) with
+    | .ok _ => "ok"
+    | .error (.parse, e) => "err parse:" ++ toString e
+    | .error (.resolve, .fuel) => "abort"
+    | .error (.resolve, e) => "err resolve:" ++ toString e
+
+def handle (args : List String) : String :=
+  match args with
+  | ["total", hex] =>
+    match decodeText hex with
+    | some cs => total cs
+    | none => "bad-op"
+  | _ => "bad-op"
+
 end Driver.FrontStream
